@@ -16,13 +16,15 @@ If(c, name) == IF c THEN {name} ELSE {}
 NonDecreasing(s) == \A i \in 1..(Len(s) - 1) : s[i] <= s[i + 1]
 
 ReaderClauses(rec, x) ==
-  LET app == SetOf(rec.appended) IN
+  LET app == SetOf(rec.appended)          \* ever appended
+      sto == SetOf(rec.stored)            \* appended and not removed by a whole-store deletion since
+  IN
   IF ~x.started THEN {} ELSE
        If(x.badHeader, "C12_returns_the_header_of_that_height")
   \cup If(x.res = "ok" /\ x.want \notin app, "C12_returns_the_header_of_that_height")
-  \cup If(x.res = "notfound" /\ (x.want \in app \/ x.want > rec.height), "C12_notfound_only_for_absent_height_at_or_below_Height")
-  \cup If(x.blockedAfter /\ x.want \in app /\ x.want <= rec.head, "C12_wakes_once_the_header_is_stored")
-  \cup If(x.blockedAfter /\ x.want \in app /\ x.want > rec.head, "C12_wakes_once_a_noncontiguous_header_is_stored")
+  \cup If(x.res = "notfound" /\ (x.want \in sto \/ x.want > rec.height), "C12_notfound_only_for_absent_height_at_or_below_Height")
+  \cup If(x.blockedAfter /\ x.want \in sto /\ x.want <= rec.head, "C12_wakes_once_the_header_is_stored")
+  \cup If(x.blockedAfter /\ x.want \in sto /\ x.want > rec.head, "C12_wakes_once_a_noncontiguous_header_is_stored")
   \cup If(x.blockedAfter /\ ~x.releasedByCtx, "C12_cancelled_context_releases_caller")
   \cup If(x.res = "ctx" /\ ~x.cancelledMid /\ ~x.blockedAfter, "C12_context_error_without_cancellation")
   \cup If(x.res \notin {"ok", "notfound", "ctx", "blocked", "none"}, "C12_unexpected_error")
@@ -38,19 +40,35 @@ StressClauses(rec) ==
   \cup If(rec.finalTail # rec.tailWant, "C17_tail_is_where_the_last_successful_delete_left_it")
   \cup If(rec.errors # 0, "C17_operation_failed_unexpectedly")
 
+\* C06 — free schedules with a Stop in the middle, then a fresh Store on the same datastore
+StopClauses(rec) ==
+       If(rec.stopHung, "C06_Stop_returns")
+  \cup If(rec.reopenErr # "", "C06_reopen_starts_without_error")
+  \cup If(Len(rec.lost) # 0, "C06_clean_restart_keeps_every_header_whose_Append_returned_before_Stop")
+  \cup If(rec.headBelowRun, "C04_head_is_top_of_contiguous_run")
+
+\* C17 — free schedules: appenders that Sync and re-read, a racing tail-side deleter, final state
+FreeC17Clauses(rec) ==
+       If(rec.syncedBad # 0, "C17_appended_then_synced_header_readable")
+  \cup If(Len(rec.missing) # 0 \/ rec.finalTail = 0 \/ rec.finalTail > rec.head, "C17_gap_free_chain_after_racing_tail_delete")
+  \cup If(rec.finalTail # rec.tailWant, "C17_tail_is_where_the_last_successful_delete_left_it")
+
+Kind(rec) == IF "kind" \in DOMAIN rec THEN rec.kind ELSE ""
 Clauses(rec) ==
-  IF "kind" \in DOMAIN rec /\ rec.kind = "stress" THEN StressClauses(rec) ELSE
-       UNION {ReaderClauses(rec, rec.readers[i]) : i \in DOMAIN rec.readers}
+  IF Kind(rec) = "stress" THEN StressClauses(rec)
+  ELSE IF Kind(rec) = "stop" THEN StopClauses(rec)
+  ELSE UNION {ReaderClauses(rec, rec.readers[i]) : i \in DOMAIN rec.readers}
   \cup If(~NonDecreasing(rec.headseq), "C17_Head_never_decreases")
   \cup If(~NonDecreasing(rec.hsseq), "C17_Height_never_decreases")
+  \cup (IF Kind(rec) = "c17free" THEN FreeC17Clauses(rec) ELSE {})
 
 \* which readers a failing clause belongs to (reader id -> its failing clauses), for the cause signature
 FailingReaders(rec) ==
-  IF "kind" \in DOMAIN rec /\ rec.kind = "stress" THEN <<>>
+  IF Kind(rec) \in {"stress", "stop"} THEN <<>>
   ELSE [i \in DOMAIN rec.readers |-> ReaderClauses(rec, rec.readers[i])]
 
 Late(rec) ==
-  IF "kind" \in DOMAIN rec /\ rec.kind = "stress" THEN <<>>
+  IF Kind(rec) \in {"stress", "stop"} THEN <<>>
   ELSE [i \in DOMAIN rec.readers |-> rec.readers[i].subAfterNotify]
 
 Init == l = 1
